@@ -34,9 +34,9 @@ type PStep struct {
 }
 
 type Ctx struct {
-	prefix []PStep
-	Trace  []Step
-	Cost   int
+	prefix   []PStep
+	Trace    []Step
+	Cost     int
 	Diverged string
 	// MaxChoices bounds the number of choice points at which alternatives are
 	// recorded (0 = unlimited). Executions still run to completion.
@@ -127,11 +127,11 @@ func (c *Ctx) Deviations() []string {
 
 // Result of exploring a subtree.
 type Stats struct {
-	Executions  int64
-	Steps       int64
-	MaxSteps    int
-	Outcomes    map[string]int64
-	Truncated   bool // a cap (executions / time) was hit
+	Executions int64
+	Steps      int64
+	MaxSteps   int
+	Outcomes   map[string]int64
+	Truncated  bool // a cap (executions / time) was hit
 }
 
 // RunFunc executes one execution under ctx and returns an outcome string
@@ -152,16 +152,24 @@ func RunOne(n Node, bound int, run RunFunc, st *Stats) []Node {
 	}
 	ctx := NewCtx(n.Prefix)
 	out := run(ctx)
+	// A divergence while replaying the prefix means the code under test did not behave the same way twice
+	// under identical inputs and schedule. Re-execute (twice at most); a persistent divergence leaves this
+	// subtree unexplored and is reported by the caller (never silently).
+	for retry := 0; ctx.Diverged != "" && retry < 2; retry++ {
+		st.Outcomes["(re-executed after a divergence)"]++
+		ctx = NewCtx(n.Prefix)
+		out = run(ctx)
+	}
 	st.Executions++
 	st.Steps += int64(len(ctx.Trace))
 	if len(ctx.Trace) > st.MaxSteps {
 		st.MaxSteps = len(ctx.Trace)
 	}
-	st.Outcomes[out]++
 	if ctx.Diverged != "" {
 		st.Outcomes["DIVERGED: "+ctx.Diverged]++
 		return nil
 	}
+	st.Outcomes[out]++
 	var kids []Node
 	cost := n.Cost
 	for i := len(n.Prefix); i < len(ctx.Trace); i++ {
